@@ -515,6 +515,31 @@ int vf_geo_neighbors(H3Index h, H3Index out[MAX_CELL_BNDRY_VERTS]) {
     return vf_geo_neighbors_c(&c, VF_PUSH_FRAC, out);
 }
 
+/* the stretch of A's boundary (in A's counter-clockwise order) whose segments are matched,
+ * reversed and within 1e-12 rad, by segments of B */
+int vf_shared_stretch(const vf_cell *A, const vf_cell *B, int idx[4]) {
+    int own[MAX_CELL_BNDRY_VERTS], cnt = 0;
+    for (int s = 0; s < A->n; s++) {
+        V3 p = A->v[s], q = A->v[(s + 1) % A->n];
+        own[s] = 0;
+        for (int t = 0; t < B->n; t++) {
+            V3 d1 = v3_sub(p, B->v[(t + 1) % B->n]), d2 = v3_sub(q, B->v[t]);
+            if (v3_dot(d1, d1) < 1e-24L && v3_dot(d2, d2) < 1e-24L) own[s] = 1;
+        }
+        cnt += own[s];
+    }
+    if (cnt == 0 || cnt > 2) return cnt ? -1 : 0;
+    int s0 = -1;
+    for (int s = 0; s < A->n; s++)
+        if (own[s] && !own[(s + A->n - 1) % A->n]) {
+            if (s0 >= 0) return -1; /* two runs */
+            s0 = s;
+        }
+    if (s0 < 0) return -1;
+    for (int i = 0; i <= cnt; i++) idx[i] = (s0 + i) % A->n;
+    return cnt + 1;
+}
+
 /* ================================================================== map */
 void vf_map_init(vf_map *m, size_t hint) {
     size_t cap = 64;
